@@ -206,8 +206,8 @@ Print Assumptions C17_validate_list.
 (* the whole call: a successful saveframe leaves the umask as before and a file holding one entry per
    selected frame, keyed by distance (distinct keys), with the frame's own metadata and its filtered
    locals; a refused call leaves the file system untouched *)
-Theorem C17_saveframe_end_to_end : forall rx valid pk script esc fa va ea cur e open_ok dump_ok (st : fs saved) res st',
-  saveframe rx valid pk script esc fa va ea cur e open_ok dump_ok st = (res, st') ->
+Theorem C17_saveframe_end_to_end : forall rx valid pk script esc n1 fa va ea cur e open_ok exc_pk (st : fs saved) res st',
+  saveframe rx valid pk script esc n1 fa va ea cur e open_ok exc_pk st = (res, st') ->
   fs_umask st' = fs_umask st /\
   match res with
   | Err _ => st' = st
@@ -222,10 +222,28 @@ Theorem C17_saveframe_end_to_end : forall rx valid pk script esc fa va ea cur e 
             s_file s = f_file f /\ s_line s = f_line f /\ s_func s = f_func f /\ s_qual s = f_qual f /\
             s_vars s = local_variables_data pk (f_locals f) inc exc) /\
         (o = Saved -> exists m, fs_file st' = Some (m, CData d) /\ (fs_file st = None -> m = 420%N)) /\
-        (o = Saved <-> open_ok = true /\ dump_ok = true)
+        (o = Saved <-> open_ok = true /\ (n1 = true \/ exc_pk = true)) /\
+        (open_ok = false -> fs_file st' = fs_file st)
   end.
 Proof. exact saveframe_end_to_end. Qed.
 Print Assumptions C17_saveframe_end_to_end.
+
+(* C17-N1.  Repaired (fixes/C17N1-*.diff: placeholder for an unpicklable exception object, mapping
+   serialized before the file is opened): whatever the exception object, a call that passes validation
+   and can open the file saves, and no path leaves a truncated file.  As the code was: an unpicklable
+   exception object left a truncated file and nothing saved. *)
+Theorem C17_n1_repaired_never_truncates : forall rx valid pk script esc fa va ea cur e open_ok exc_pk (st : fs saved) o d st',
+  saveframe rx valid pk script esc true fa va ea cur e open_ok exc_pk st = (Ok (o, d), st') ->
+  (open_ok = true -> o = Saved) /\
+  (forall m, fs_file st' <> Some (m, CTruncated) \/ fs_file st = Some (m, CTruncated)).
+Proof. exact n1_repaired_never_truncates. Qed.
+Print Assumptions C17_n1_repaired_never_truncates.
+
+Theorem C17_n1_unrepaired_truncates : forall rx valid pk script esc fa va ea cur e (st : fs saved) o d st',
+  saveframe rx valid pk script esc false fa va ea cur e true false st = (Ok (o, d), st') ->
+  o = BodyFailed /\ exists m, fs_file st' = Some (m, CTruncated).
+Proof. exact n1_unrepaired_truncates. Qed.
+Print Assumptions C17_n1_unrepaired_truncates.
 
 (* reader_consistent: every query form returns the saved values *)
 Theorem C17_reader_vars_idx_single : forall d x k r,
